@@ -1,4 +1,5 @@
 import LettreVerif.Proofs.PoolLts
+import LettreVerif.Proofs.PoolClosed
 /-!
 # C09 — Shutdown closes every connection and is final, under any interleaving
 
@@ -23,6 +24,20 @@ theorem shutdown_shuts (s : St) : (shutdownLock s).idle = none := shutdownLock_i
 theorem shutdown_closes_parked (s : St) (l : List (Nat × Bool)) (h : s.idle = some l) (c : Nat) (x : Bool)
     (hm : (c, x) ∈ l) (hc : c < s.conns.length) : (getConn (shutdownLock s) c).closed = true :=
   PoolLts.shutdown_closes_parked s l h c x hm hc
+
+/-- **Closed is for ever.** No transition of the pool — a probe, a transaction, a return, a maintenance pass, another
+    shutdown, the passing of time — re-opens a closed connection. -/
+theorem closed_stays_closed (es : List Ev) (s s' : St) (c : Nat) (hc : c < s.conns.length)
+    (h : (getConn s c).closed = true) (hr : run s es = some s') :
+    c < s'.conns.length ∧ (getConn s' c).closed = true :=
+  cl_run es s s' c ⟨hc, h⟩ hr
+
+/-- Hence every connection that was parked when `shutdown` ran is closed in every later state, whatever happens next. -/
+theorem parked_at_shutdown_closed_for_ever (s : St) (l : List (Nat × Bool)) (h : s.idle = some l) (c : Nat) (x : Bool)
+    (hm : (c, x) ∈ l) (hc : c < s.conns.length) (es : List Ev) (s' : St) (hr : run (shutdownLock s) es = some s') :
+    (getConn s' c).closed = true :=
+  (cl_run es (shutdownLock s) s' c
+    ⟨by rw [shutdownLock_conns_length]; exact hc, PoolLts.shutdown_closes_parked s l h c x hm hc⟩ hr).2
 
 /-- a parked connection that is healthy gets QUIT before the close -/
 theorem abort_sends_quit (k : Conn) (h1 : k.closed = false) (h2 : k.broken = false) (h3 : k.peerAlive = true) :
